@@ -1,1 +1,453 @@
+//! Deterministic simulation world: one current-thread tokio runtime per case, paused clock,
+//! seeded `select!` order, mock transports with a timestamped wire log, scripted peer helpers.
 
+pub mod wire;
+
+use bytes::Bytes;
+use parking_lot::Mutex;
+use sip_core::transport::{
+    parse_complete, CompleteItem, Direction, ReceivedMessage, TpHandle, Transport,
+};
+use sip_core::{Endpoint, EndpointBuilder, IncomingRequest, Layer, MayTake};
+use sip_types::Code;
+use std::collections::BTreeMap;
+use std::fmt;
+use std::future::Future;
+use std::io;
+use std::net::SocketAddr;
+use std::sync::atomic::{AtomicU64, Ordering};
+use std::sync::Arc;
+use std::time::Duration;
+use tokio::time::Instant;
+pub use wire::WireMsg;
+
+pub const T1: u64 = 500;
+pub const T2: u64 = 4000;
+pub const T4: u64 = 5000;
+
+/// Run `f` on a fresh current-thread runtime with paused clock and the given select!-order seed.
+pub fn run_world<F, Fut, R>(rng_seed: u64, f: F) -> R
+where
+    F: FnOnce(Clock) -> Fut,
+    Fut: Future<Output = R>,
+{
+    let rt = tokio::runtime::Builder::new_current_thread()
+        .enable_time()
+        .start_paused(true)
+        .rng_seed(tokio::runtime::RngSeed::from_bytes(&rng_seed.to_le_bytes()))
+        .build()
+        .expect("runtime");
+    let r = rt.block_on(async {
+        let clock = Clock {
+            start: Instant::now(),
+        };
+        f(clock).await
+    });
+    // dropping the runtime drops every task still alive (their Drop impls run here)
+    drop(rt);
+    r
+}
+
+#[derive(Clone, Copy, Debug)]
+pub struct Clock {
+    pub start: Instant,
+}
+
+impl Clock {
+    pub fn now_ms(&self) -> u64 {
+        Instant::now().duration_since(self.start).as_millis() as u64
+    }
+    /// sleep until virtual time `t` ms (no-op when already past)
+    pub async fn until(&self, t_ms: u64) {
+        let target = self.start + Duration::from_millis(t_ms);
+        if Instant::now() < target {
+            tokio::time::sleep_until(target).await;
+        }
+    }
+    pub async fn advance(&self, d_ms: u64) {
+        tokio::time::sleep(Duration::from_millis(d_ms)).await;
+    }
+}
+
+/// Let every other ready task run until nothing more happens, without advancing the clock.
+pub async fn settle() {
+    for _ in 0..40 {
+        tokio::task::yield_now().await;
+    }
+}
+
+// ------------------------------------------------------------------------------------------
+// wire log + mock datagram transport
+
+#[derive(Clone, Debug)]
+pub struct Sent {
+    pub t_ms: u64,
+    pub tp: u32,
+    pub dest: SocketAddr,
+    pub bytes: Bytes,
+}
+
+#[derive(Clone)]
+pub struct WireLog {
+    pub clock: Clock,
+    pub sent: Arc<Mutex<Vec<Sent>>>,
+}
+
+impl WireLog {
+    pub fn new(clock: Clock) -> Self {
+        Self {
+            clock,
+            sent: Default::default(),
+        }
+    }
+    pub fn snapshot(&self) -> Vec<Sent> {
+        self.sent.lock().clone()
+    }
+    pub fn len(&self) -> usize {
+        self.sent.lock().len()
+    }
+    pub fn parsed(&self) -> Vec<(Sent, Option<WireMsg>)> {
+        self.snapshot()
+            .into_iter()
+            .map(|s| {
+                let m = WireMsg::parse(&s.bytes);
+                (s, m)
+            })
+            .collect()
+    }
+    /// compact human-readable rendering for evidence samples / failure messages
+    pub fn render(&self) -> String {
+        let mut out = String::new();
+        for (s, m) in self.parsed() {
+            let line = m.map(|m| m.start).unwrap_or_else(|| "<unparsable>".into());
+            out.push_str(&format!("{}ms tp{}->{} {} | ", s.t_ms, s.tp, s.dest, line));
+        }
+        out
+    }
+}
+
+static NEXT_TP: AtomicU64 = AtomicU64::new(1);
+
+pub struct MockDatagram {
+    pub id: u32,
+    pub name: &'static str,
+    pub secure: bool,
+    pub reliable: bool,
+    pub bound: SocketAddr,
+    pub log: WireLog,
+    /// when set, `send` fails with this error kind
+    pub fail_send: Arc<Mutex<bool>>,
+}
+
+impl fmt::Debug for MockDatagram {
+    fn fmt(&self, f: &mut fmt::Formatter<'_>) -> fmt::Result {
+        write!(f, "MockDatagram#{}({} {})", self.id, self.name, self.bound)
+    }
+}
+impl fmt::Display for MockDatagram {
+    fn fmt(&self, f: &mut fmt::Formatter<'_>) -> fmt::Result {
+        write!(f, "mock:{}:{}", self.name, self.bound)
+    }
+}
+
+#[async_trait::async_trait]
+impl Transport for MockDatagram {
+    fn name(&self) -> &'static str {
+        self.name
+    }
+    fn secure(&self) -> bool {
+        self.secure
+    }
+    fn reliable(&self) -> bool {
+        self.reliable
+    }
+    fn bound(&self) -> SocketAddr {
+        self.bound
+    }
+    fn sent_by(&self) -> SocketAddr {
+        self.bound
+    }
+    fn direction(&self) -> Direction {
+        Direction::None
+    }
+    async fn send(&self, message: &[u8], target: SocketAddr) -> io::Result<()> {
+        if *self.fail_send.lock() {
+            return Err(io::Error::new(io::ErrorKind::Other, "mock send failure"));
+        }
+        self.log.sent.lock().push(Sent {
+            t_ms: self.log.clock.now_ms(),
+            tp: self.id,
+            dest: target,
+            bytes: Bytes::copy_from_slice(message),
+        });
+        Ok(())
+    }
+}
+
+pub fn mock_datagram(
+    log: &WireLog,
+    name: &'static str,
+    secure: bool,
+    reliable: bool,
+    bound: &str,
+) -> (TpHandle, u32) {
+    let id = (NEXT_TP.fetch_add(1, Ordering::Relaxed) & 0xffff_ffff) as u32;
+    let tp = MockDatagram {
+        id,
+        name,
+        secure,
+        reliable,
+        bound: bound.parse().expect("bound addr"),
+        log: log.clone(),
+        fail_send: Default::default(),
+    };
+    (TpHandle::new(tp), id)
+}
+
+/// Endpoint builder with a resolver that never touches the network.
+pub fn offline_builder() -> EndpointBuilder {
+    let mut b = Endpoint::builder();
+    b.set_dns_resolver(trust_dns_resolver::TokioAsyncResolver::tokio(
+        trust_dns_resolver::config::ResolverConfig::new(),
+        Default::default(),
+    ));
+    b
+}
+
+/// What happened to an injected datagram at the transport glue
+#[derive(Debug, PartialEq, Eq, Clone, Copy)]
+pub enum Injected {
+    Sip,
+    Stun,
+    KeepAlive,
+    Rejected,
+}
+
+/// Deliver `bytes` as one datagram exactly the way `udp.rs::handle_msg` does.
+/// A panic inside `parse_complete` propagates (that is what kills the real UDP task).
+pub fn inject(endpoint: &Endpoint, tp: &TpHandle, source: SocketAddr, bytes: &[u8]) -> Injected {
+    match parse_complete(endpoint.parser(), bytes) {
+        Ok(CompleteItem::KeepAliveRequest) | Ok(CompleteItem::KeepAliveResponse) => {
+            Injected::KeepAlive
+        }
+        Ok(CompleteItem::Stun(message)) => {
+            endpoint.receive_stun(message, source, tp.clone());
+            Injected::Stun
+        }
+        Ok(CompleteItem::Sip {
+            line,
+            headers,
+            body,
+            buffer,
+        }) => {
+            endpoint.receive(ReceivedMessage::new(
+                source,
+                buffer,
+                tp.clone(),
+                line,
+                headers,
+                body,
+            ));
+            Injected::Sip
+        }
+        Err(_) => Injected::Rejected,
+    }
+}
+
+// ------------------------------------------------------------------------------------------
+// recording / policy layer
+
+#[derive(Clone, Copy, Debug, PartialEq, Eq, serde::Serialize, serde::Deserialize)]
+pub enum Policy {
+    /// does not look at the request
+    Ignore,
+    /// looks (derefs) but does not take
+    Inspect,
+    /// takes the request and answers with `code` after `delay_ms`
+    Answer { code: u16, delay_ms: u64 },
+    /// takes the request and drops it without answering
+    TakeDrop,
+}
+
+#[derive(Clone, Debug)]
+pub struct Seen {
+    pub seq: u64,
+    pub t_ms: u64,
+    pub layer: usize,
+    pub method: String,
+    pub branch: String,
+    pub cseq: u32,
+    pub call_id: String,
+    pub marker: Option<String>,
+}
+
+#[derive(Clone)]
+pub struct Recorder {
+    pub clock: Clock,
+    pub seen: Arc<Mutex<Vec<Seen>>>,
+    pub seq: Arc<AtomicU64>,
+}
+
+impl Recorder {
+    pub fn new(clock: Clock) -> Self {
+        Self {
+            clock,
+            seen: Default::default(),
+            seq: Arc::new(AtomicU64::new(0)),
+        }
+    }
+    pub fn note(&self, layer: usize, req: &IncomingRequest) {
+        let marker: Option<String> = req
+            .headers
+            .iter()
+            .find(|(n, _)| n.as_print_str().eq_ignore_ascii_case("x-seq"))
+            .map(|(_, v)| v.to_string());
+        self.seen.lock().push(Seen {
+            seq: self.seq.fetch_add(1, Ordering::Relaxed),
+            t_ms: self.clock.now_ms(),
+            layer,
+            method: req.line.method.to_string(),
+            branch: req.tsx_key.branch().to_string(),
+            cseq: req.base_headers.cseq.cseq,
+            call_id: req.base_headers.call_id.0.to_string(),
+            marker,
+        });
+    }
+    pub fn snapshot(&self) -> Vec<Seen> {
+        self.seen.lock().clone()
+    }
+}
+
+/// A layer whose behaviour per method is given by a policy table.
+pub struct PolicyLayer {
+    pub index: usize,
+    pub rec: Recorder,
+    /// method name -> policy; "*" = default
+    pub table: BTreeMap<String, Policy>,
+}
+
+impl PolicyLayer {
+    pub fn policy_for(&self, method: &str) -> Policy {
+        self.table
+            .get(method)
+            .or_else(|| self.table.get("*"))
+            .copied()
+            .unwrap_or(Policy::Ignore)
+    }
+}
+
+#[async_trait::async_trait]
+impl Layer for PolicyLayer {
+    fn name(&self) -> &'static str {
+        "policy"
+    }
+
+    async fn receive(&self, endpoint: &Endpoint, request: MayTake<'_, IncomingRequest>) {
+        let method = request.line.method.to_string();
+        match self.policy_for(&method) {
+            Policy::Ignore => {}
+            Policy::Inspect => {
+                self.rec.note(self.index, &request);
+            }
+            Policy::TakeDrop => {
+                self.rec.note(self.index, &request);
+                let req = request.take();
+                drop(req);
+            }
+            Policy::Answer { code, delay_ms } => {
+                self.rec.note(self.index, &request);
+                let mut req = request.take();
+                if method == "ACK" {
+                    return;
+                }
+                let endpoint = endpoint.clone();
+                let fut = async move {
+                    if delay_ms > 0 {
+                        tokio::time::sleep(Duration::from_millis(delay_ms)).await;
+                    }
+                    let response = endpoint.create_response(&req, Code::from(code), None);
+                    if method == "INVITE" {
+                        let tsx = endpoint.create_server_inv_tsx(&mut req);
+                        if (200..300).contains(&code) {
+                            let _ = tsx.respond_success(response).await;
+                        } else {
+                            let _ = tsx.respond_failure(response).await;
+                        }
+                    } else {
+                        let tsx = endpoint.create_server_tsx(&mut req);
+                        let _ = tsx.respond(response).await;
+                    }
+                };
+                if delay_ms == 0 {
+                    fut.await;
+                } else {
+                    tokio::spawn(fut);
+                }
+            }
+        }
+    }
+}
+
+// ------------------------------------------------------------------------------------------
+// message templates (peer side)
+
+/// Minimal request text. `extra` are complete header lines without CRLF.
+pub fn request_text(
+    method: &str,
+    uri: &str,
+    via: &[String],
+    from: &str,
+    to: &str,
+    call_id: &str,
+    cseq: u32,
+    cseq_method: &str,
+    extra: &[String],
+    body: &[u8],
+) -> Vec<u8> {
+    let mut s = format!("{method} {uri} SIP/2.0\r\n");
+    for v in via {
+        s.push_str(&format!("Via: {v}\r\n"));
+    }
+    s.push_str(&format!("From: {from}\r\n"));
+    s.push_str(&format!("To: {to}\r\n"));
+    s.push_str(&format!("Call-ID: {call_id}\r\n"));
+    s.push_str(&format!("CSeq: {cseq} {cseq_method}\r\n"));
+    s.push_str("Max-Forwards: 70\r\n");
+    for e in extra {
+        s.push_str(e);
+        s.push_str("\r\n");
+    }
+    s.push_str(&format!("Content-Length: {}\r\n\r\n", body.len()));
+    let mut b = s.into_bytes();
+    b.extend_from_slice(body);
+    b
+}
+
+/// Response text mirroring a request that ezk sent (`req` from the wire log).
+pub fn response_text(
+    req: &WireMsg,
+    code: u16,
+    to_tag: Option<&str>,
+    extra: &[String],
+) -> Vec<u8> {
+    let mut s = format!("SIP/2.0 {code} X\r\n");
+    for v in req.headers_named("via") {
+        s.push_str(&format!("Via: {v}\r\n"));
+    }
+    s.push_str(&format!("From: {}\r\n", req.header("from").unwrap_or("")));
+    let to = req.header("to").unwrap_or("");
+    match to_tag {
+        Some(t) if wire::param_of(to, "tag").is_none() => {
+            s.push_str(&format!("To: {to};tag={t}\r\n"))
+        }
+        _ => s.push_str(&format!("To: {to}\r\n")),
+    }
+    s.push_str(&format!("Call-ID: {}\r\n", req.header("call-id").unwrap_or("")));
+    s.push_str(&format!("CSeq: {}\r\n", req.header("cseq").unwrap_or("")));
+    for e in extra {
+        s.push_str(e);
+        s.push_str("\r\n");
+    }
+    s.push_str("Content-Length: 0\r\n\r\n");
+    s.into_bytes()
+}
